@@ -117,6 +117,20 @@ pub fn run(ctx: &mut Ctx) {
                     let reqs = [[1usize, 2, 3][ci % 3], 7];
                     one(ctx, &ch, &reqs, n <= 4);
                     ctx.stat("gen:exhaustive_string_x_chunking");
+                    // zero-length writes / reads between the chunks (legal for `io::Write::write`
+                    // callers of the signature hasher): every single insertion position
+                    if n <= 5 {
+                        for pos in 0..=ch.len() {
+                            let mut with_empty = ch.clone();
+                            with_empty.insert(pos, Vec::new());
+                            let h = hasher(&with_empty);
+                            let want = canon_ref(&s);
+                            ctx.case(format!("canon_hasher chunks={}", hx_list(&with_empty)), ans(&h));
+                            ctx.oracle("hasher_is_canon", "util.rs NormalizingHasher::{hash_buf,done}", &format!("chunks={}", hx_list(&with_empty)),
+                                h.as_ref().ok() == Some(&want), &format!("got {:?} want {}", h.as_ref().map(|v| hx(v)), hx(&want)));
+                            ctx.stat("gen:with_empty_chunk");
+                        }
+                    }
                 }
             } else {
                 let ch = gen::random_chunking(&mut ctx.rng, &s, 3);
